@@ -125,8 +125,8 @@ prop("C12", "exploration",
      "Get must have len==n, cap>=n, be disjoint from every outstanding range and stay inside the range donated by the Put it came from; every held slice carries a handle-specific pattern "
      "verified at Put and at the end. distinct_nontrivial = distinct (operation, size class or Put shape, fresh/recycled) tuples checked. Thorough adds -race (=> checkptr) and -asan builds",
      [
-         {"harness": "pool", "args": {"quick": ["--mode", "all", "--n", "1500"], "thorough": ["--mode", "all"]}, "timeout": {"quick": 600, "thorough": 3400}},
-         {"harness": "pool", "race": True, "args": {"quick": ["--mode", "all", "--n", "150"], "thorough": ["--mode", "all", "--n", "3000"]}, "timeout": {"quick": 600, "thorough": 3400}, "crash_is_violation": True},
+         {"harness": "pool", "args": {"quick": ["--mode", "all", "--n", "600"], "thorough": ["--mode", "all"]}, "timeout": {"quick": 600, "thorough": 3400}},
+         {"harness": "pool", "race": True, "args": {"quick": ["--mode", "all", "--n", "80"], "thorough": ["--mode", "all", "--n", "3000"]}, "timeout": {"quick": 600, "thorough": 3400}, "crash_is_violation": True},
          {"harness": "pool", "asan": True, "tiers": ["thorough"], "args": {"thorough": ["--mode", "all", "--n", "3000"]}, "timeout": {"thorough": 3400}, "crash_is_violation": True},
          {"harness": "pool", "tiers": ["thorough"], "args": {"thorough": ["--mode", "huge"]}, "timeout": {"thorough": 1200}},
      ],
